@@ -129,7 +129,8 @@ def gen_case(rng, i, kinds):
         ops.append("VL %d %s" % (padded, hx(b)))
         parts = split(rng, b)
         if parts:
-            ops.append("VF %d %d %d %d %s" % (padded, len(b), rng.randrange(2), len(parts), " ".join(hx(p) for p in parts)))
+            nt = rng.randrange(2)
+            ops.append("VF %d %d %d %d %s" % (padded, len(b), nt, len(parts), " ".join(("~" if (not p and not nt and j > 0 and rng.random() < 0.6) else hx(p)) for j, p in enumerate(parts))))
             ops.append("VF %d %d 0 1 %s" % (padded, len(b), hx(b)))
     elif kind == "split-exhaustive":
         # every split of the first k <= 9 bytes (the pre-check only looks at bytes 0, 2, 3), the rest in one more buffer
@@ -151,7 +152,10 @@ def gen_case(rng, i, kinds):
                     parts[-1] += b[k:]
             if rng.random() < 0.3:
                 parts.insert(rng.randrange(len(parts) + 1), b"")
-            ops.append("VF %d %d %d %d %s" % (padded, len(b), rng.randrange(2), len(parts), " ".join(hx(p) for p in parts)))
+            nt = rng.randrange(2)
+            # counted vectors may hold {NULL, 0} placeholder entries ("~") after the first entry (a NULL first buffer means "no data" to
+            # the pre-check in either convention); a NULL-terminated vector ends at the first NULL buffer
+            ops.append("VF %d %d %d %d %s" % (padded, len(b), nt, len(parts), " ".join(("~" if (not p and not nt and j > 0 and rng.random() < 0.6) else hx(p)) for j, p in enumerate(parts))))
     elif kind in ("build", "roundtrip"):
         cap = rng.choice([0, 1, 19, 20, 21, 23, 24, 25, 27, 28, 32, 44, 48, 63, 64, 100, 200, 576, 1280, 2048, rng.randrange(0, 2049)])
         user = bytes(rng.choice(b"abcdef:") for _ in range(rng.choice(ULEN)))
@@ -374,7 +378,7 @@ def parse_program(line):
 
 
 def unhx(s):
-    return b"" if s == "-" else bytes.fromhex(s)
+    return b"" if s in ("-", "~") else bytes.fromhex(s)
 
 
 def expected_mi(buf, attrs, mi_off, compat, key):
